@@ -38,3 +38,5 @@ pub fn arg<T: std::str::FromStr>(name: &str, default: T) -> T {
     }
     default
 }
+
+pub mod pool;
